@@ -2,17 +2,18 @@
 TB = ("trusted: CPython ast, documented pyparsing 3.1 combinator semantics; assumes no monkey-patching "
       "beyond the one the repo does and no computed getattr/setattr")
 ENGINES = [
-    {"name": "G", "path": "wrapsa/grammar.py", "serves_properties": ["C01", "C12", "C19"],
+    {"name": "G", "path": "wrapsa/grammar.py", "serves_properties": ["C01", "C03", "C07", "C12", "C19"],
      "kind_free_text": "abstract interpretation of module/class-level statements -> pyparsing grammar IR; "
                        "nullable/FIRST/recursion/capture-scope/layout analyses"},
-    {"name": "F", "path": "wrapsa/prog.py", "serves_properties": ["C01", "C02", "C08", "C13", "C14",
-                                                                   "C15", "C16", "C17"],
+    {"name": "F", "path": "wrapsa/prog.py", "serves_properties": ["C01", "C02", "C03", "C06", "C07", "C08",
+                                                                   "C10", "C13", "C14", "C15", "C16", "C17"],
      "kind_free_text": "program index, call binding, guards, def-use, freshness, effects"},
-    {"name": "E", "path": "wrapsa/emit.py", "serves_properties": ["C03", "C04", "C09"],
+    {"name": "E", "path": "wrapsa/emit.py", "serves_properties": ["C03", "C04", "C06", "C09", "C10", "C11",
+                                                                   "C15", "C16", "C17"],
      "kind_free_text": "constant folding of str.format / f-string / concatenation / textwrap templates into literal parts and slots with bound expressions"},
     {"name": "I", "path": "wrapsa/rules_ids.py", "serves_properties": ["C05"],
      "kind_free_text": "id-allocation site inventory (affine offsets, slot positions) + bounded abstract execution of the replay loops"},
-    {"name": "X", "path": "wrapsa/clangx.py", "serves_properties": ["C18", "C11"],
+    {"name": "X", "path": "wrapsa/clangx.py", "serves_properties": ["C11", "C18"],
      "kind_free_text": "clang -fsyntax-only JSON AST of matlab.h against stub headers"},
 ]
 CHECKS = {
